@@ -123,7 +123,7 @@ func (p *Pipe) Open(a *transport.Args) error {
 		return p.OpenErr
 	}
 
-	p.pending = append(p.pending, p.dev.Connect()...)
+	p.appendDev(p.dev.Connect())
 
 	return nil
 }
@@ -193,6 +193,32 @@ func (p *Pipe) PendingLen() int {
 	defer p.mu.Unlock()
 
 	return len(p.pending)
+}
+
+// appendDev queues device bytes and converts the device's relative message barriers (if it
+// reports any) to absolute stream offsets. Caller holds the lock.
+func (p *Pipe) appendDev(out []byte) {
+	base := p.delivered + len(p.pending)
+
+	if bs, ok := p.dev.(interface{ TakeBarriers() []int }); ok {
+		for _, b := range bs.TakeBarriers() {
+			p.Barriers = append(p.Barriers, base+b)
+		}
+	}
+
+	if len(out) > 0 {
+		p.pending = append(p.pending, out...)
+		p.cond.Broadcast()
+	}
+}
+
+// InjectMessage appends an unsolicited device message and puts a read barrier after it.
+func (p *Pipe) InjectMessage(b []byte) {
+	p.mu.Lock()
+	p.pending = append(p.pending, b...)
+	p.Barriers = append(p.Barriers, p.delivered+len(p.pending))
+	p.cond.Broadcast()
+	p.mu.Unlock()
 }
 
 // Inject appends unsolicited device bytes (used by paced device scripts).
@@ -415,11 +441,7 @@ func (p *Pipe) Write(b []byte) error {
 	cp := append([]byte(nil), b...)
 	p.log("w", cp)
 
-	out := p.dev.Input(cp)
-	if len(out) > 0 {
-		p.pending = append(p.pending, out...)
-		p.cond.Broadcast()
-	}
+	p.appendDev(p.dev.Input(cp))
 
 	return nil
 }
